@@ -452,11 +452,12 @@ def rule_stored_once(ctx, repo):
     def new(it, c, *args):
         return it.call(AClass(c), list(args), {}, None)
 
-    def reach(track):
+    def reach(it, track):
         objs = []
-        for b in track.attrs["bars"]:
+        # (read the way Python would: an attribute the instance does not have comes from the class)
+        for b in it.getattr(track, "bars"):
             objs.append(b)
-            for e in b.attrs["bar"]:
+            for e in it.getattr(b, "bar"):
                 if isinstance(e[2], AObj):
                     objs.append(e[2])
                     objs.extend(n for n in e[2].attrs.get("notes", []) if isinstance(n, AObj))
@@ -475,7 +476,7 @@ def rule_stored_once(ctx, repo):
             else:
                 item = mkitem(it)
             it.call_method(c, "add_note", [item], {}, None)
-            return [reach(t) for t in ts]
+            return [reach(it, t) for t in ts]
         try:
             ps = explore(lambda ch: Interp(repo, ch, max_depth=60, max_iter=5000), go)
         except CannotDecide as e:
